@@ -5,7 +5,7 @@
 (* rejects; `skipped` = steps outside the differentiable or tame domain.             *)
 (* IOEnv.PROP selects which instructions a property owns (everything else is still   *)
 (* executed, but not judged under that property).                                    *)
-EXTENDS NumVM, Json, IOUtils, TLC
+EXTENDS PyNum, Json, IOUtils, TLC
 Progs == ndJsonDeserialize(IOEnv.TRACE)
 Prop == IOEnv.PROP
 Arith == {"add", "sub", "mul", "div", "neg", "pow", "exp", "log", "ncdf", "incdf", "abs"}
@@ -24,15 +24,15 @@ Owned(P, s) ==
     [] Prop = "C02" -> (op \in Arith \cup {"to_d1", "gradient1", "gradient2"}) /\ (RankOfStep(P, s) = 2 \/ op = "gradient2")
     [] Prop = "C03" -> op \in {"add", "sub", "mul", "div", "rem", "eq", "ne", "to_new_vars", "union_l", "union_r", "ptr_eq", "vars_cmp"} /\ ~AnyWrapped(P, s)
     [] Prop = "C17" -> op \in {"gradient1", "gradient2", "manifold", "mul"}
-    [] Prop = "C18" -> op \in {"wrap", "unwrap", "to_n", "to_f64", "to_d1", "to_d2", "set_order", "set_order_clone"} \/ AnyWrapped(P, s)
+    [] Prop = "C18" -> op \in {"wrap", "unwrap", "to_n", "to_f64", "to_d1", "to_d2", "set_order", "set_order_clone", "py"} \/ AnyWrapped(P, s)
     [] Prop = "C19" -> op \in {"lt", "le", "gt", "ge", "eq", "ne", "abs", "rem", "sum", "zero", "one", "add", "mul", "signum", "is_positive", "is_negative", "is_zero", "abs_sub"}
     [] OTHER -> TRUE
 LeafOwned == Prop \in {"C03", "C17", "C18", "C20", "ALL"}
 BadLeaves(P) == IF LeafOwned THEN {i \in 1..Len(P.leaves) : LeafVerdict(P, i) = "bad"} ELSE {}
 TwinOwned == Prop \in {"C18", "ALL"}
-BadSteps(P) == {s \in 1..Len(P.steps) : Owned(P, s) /\ (StepVerdict(P, s) = "bad" \/ (TwinOwned /\ AnyWrapped(P, s) /\ TwinVerdict(P, s) = "bad"))}
-Skipped(P) == Cardinality({s \in 1..Len(P.steps) : Owned(P, s) /\ StepVerdict(P, s) = "skip"})
-Judged(P) == Cardinality({s \in 1..Len(P.steps) : Owned(P, s) /\ StepVerdict(P, s) = "ok"})
+BadSteps(P) == {s \in 1..Len(P.steps) : Owned(P, s) /\ (AnyVerdict(P, s) = "bad" \/ (TwinOwned /\ AnyWrapped(P, s) /\ P.steps[s].ins.op # "py" /\ TwinVerdict(P, s) = "bad"))}
+Skipped(P) == Cardinality({s \in 1..Len(P.steps) : Owned(P, s) /\ AnyVerdict(P, s) = "skip"})
+Judged(P) == Cardinality({s \in 1..Len(P.steps) : Owned(P, s) /\ AnyVerdict(P, s) = "ok"})
 VARIABLES i, badl, bads, skipped, judged
 vars == <<i, badl, bads, skipped, judged>>
 ASSUME TLCSet(1, 0) /\ TLCSet(2, 0)
